@@ -5,6 +5,7 @@ import (
 	"reflect"
 
 	gcmp "github.com/google/go-cmp/cmp"
+	"github.com/google/go-cmp/cmp/cmpopts"
 )
 
 func Pipe[T any, U any](elem T, f func(T) U) U {
@@ -32,8 +33,15 @@ func Printf1[T any](fmtstr string, arg T) {
 	fmt.Printf(fmtstr, arg)
 }
 
+// Structural equality: unexported (lower case) record fields are compared too,
+// and a nil slice equals an empty one.
+var opEqualOpts = []gcmp.Option{
+	gcmp.Exporter(func(reflect.Type) bool { return true }),
+	cmpopts.EquateEmpty(),
+}
+
 func OpEqual[T any](e1 T, e2 T) bool {
-	return gcmp.Equal(e1, e2)
+	return gcmp.Equal(e1, e2, opEqualOpts...)
 }
 
 func OpNotEqual[T any](e1 T, e2 T) bool {
